@@ -319,6 +319,16 @@ func (i *interpreter) symEq(t types.Type, x, y value) *smt.Term {
 	case array:
 		ya := y.(array)
 		et := t.Underlying().(*types.Array).Elem()
+		if b := basicOf(et); b != nil && kindWidth(b.Kind()) == 8 && len(x) > 1 && len(x) == len(ya) && (hasSym(x) || hasSym(ya)) {
+			// byte arrays (chunk IDs): compare as one wide word; adjacent extracts of a hash
+			// application fuse back into the application term
+			xs := make([]*smt.Term, len(x))
+			ys := make([]*smt.Term, len(x))
+			for k := range x {
+				xs[k], ys[k] = i.term(x[k]), i.term(ya[k])
+			}
+			return c.Eq(c.Concat(xs...), c.Concat(ys...))
+		}
 		r := c.True
 		for k := range x {
 			r = c.And(r, i.symEq(et, x[k], ya[k]))
